@@ -229,6 +229,11 @@ def absorb (v : State) (mop : MOp) (o : ImplObs) : State × List String := Id.ru
     | .kill | .advKill _ => { T with manualKill := true }
     | _ => T
   let T := { T with handled := T.handled ++ o.hd }
+  -- `drain()` publishes `Draining` synchronously: a live target stops accepting at the CALL (audit: so that
+  -- `acceptOk` / `closedOk` judge sends made between `drain()` and the drained exit on their own)
+  let T := match mop with
+    | .drain | .advDrain _ => if T.exit.isNone then { T with closedAt := some (T.closedAt.getD o.t) } else T
+    | _ => T
   -- the message loop ended (observed from inside `post_stop`): nothing is accepted from then on
   let T := match o.ps with
     | some ts => { T with closedAt := some (T.closedAt.getD ts) }
